@@ -6,7 +6,6 @@ spec/front/AbraMatch.tla + MatchCases.tla + MatchEnum.tla through TLC; reported 
 turned into bare syntax trees here and judged by TLC (spec/props/C12W.tla).  This module only runs the
 tools, maps diagnostics to the matches by the line numbers the specification emitted, assembles run
 files from specification-produced function texts and call statements, and compares."""
-import concurrent.futures
 import json
 import os
 import re
@@ -19,15 +18,14 @@ MSG_REDUND = "This match expression has redundant cases"
 
 
 # ------------------------------------------------------------------ generation (TLC)
-def _tlc_gen(prop, outdir, env, simulate=None, seed=None, timeout=1500):
+def _tlc_gen(prop, outdir, env, simulate=None, seed=None, timeout=1500, workers=1):
     module = os.path.join(vlib.SPEC, "props", prop + ".tla")
     os.makedirs(outdir, exist_ok=True)
     e = dict(env, OUTDIR=outdir)
-    meta = os.path.join(vlib.WORK, "_meta", "%s_%s_%d" % (prop, os.path.basename(outdir), os.getpid()))
     if simulate is not None:
-        res = vlib.tlc(module, simulate=simulate, depth=2, seed=seed, env=e, timeout=timeout, xmx="3g", metadir=meta)
+        res = vlib.tlc(module, simulate=simulate, depth=2, seed=seed, env=e, timeout=timeout, xmx="3g", workers=1)
     else:
-        res = vlib.tlc(module, env=e, timeout=timeout, xmx="3g", metadir=meta)
+        res = vlib.tlc(module, env=e, timeout=timeout, xmx="3g", workers=workers)
     vlib.tlc_ok(res, "%s (%s)" % (module, os.path.basename(outdir)))
     return res
 
@@ -44,38 +42,31 @@ def sizes_of(res):
     return None
 
 
-def generate(prop, tier, seed, wd, calls, nshard=None, nsim=None):
-    """-> (batches, info).  Exhaustive part: NSHARD TLC runs in model-checking mode (states = files);
-    sampled part: one `tlc -simulate -seed` run, one file of K sampled arm lists per behaviour."""
-    nshard = nshard or (4 if tier == "quick" else 8)
-    nsim = nsim if nsim is not None else (15 if tier == "quick" else 150)
-    base = dict(jvm_env(tier), TIER=tier, CALLS="1" if calls else "0", NSHARD=str(nshard), SHARD="0", MODE="enum")
-    jobs = []
-    with concurrent.futures.ThreadPoolExecutor(max_workers=nshard + 1) as ex:
-        for s in range(nshard):
-            env = dict(base, SHARD=str(s))
-            jobs.append(ex.submit(_tlc_gen, prop, os.path.join(wd, "enum_%d" % s), env))
-        simjob = None
-        if nsim > 0:
-            env = dict(base, MODE="sim")
-            simjob = ex.submit(_tlc_gen, prop, os.path.join(wd, "sim"), env, nsim, seed)
-        results = [j.result() for j in jobs]
-        simres = simjob.result() if simjob else None
-    batches = []
-    for s in range(nshard):
-        batches += vlib.load_case_files(os.path.join(wd, "enum_%d" % s))
+JOBS = 4          # harness processes at a time (shared machine)
+NCHAIN = 2        # TLC workers of the enumeration run
+
+
+def generate(prop, tier, seed, wd, calls, nsim=None):
+    """-> (batches, info).  Exhaustive part: one TLC run in model-checking mode (states = files, two interleaved
+    chains for two workers); sampled part: one `tlc -simulate -seed` run, one file of K sampled arm lists per
+    behaviour.  The two runs are made one after the other."""
+    nsim = nsim if nsim is not None else (10 if tier == "quick" else 60)
+    base = dict(jvm_env(tier), TIER=tier, CALLS="1" if calls else "0", NSHARD="1", SHARD="0", NCHAIN=str(NCHAIN), MODE="enum")
+    res = _tlc_gen(prop, os.path.join(wd, "enum"), base, workers=NCHAIN)
+    simres = _tlc_gen(prop, os.path.join(wd, "sim"), dict(base, MODE="sim"), nsim, seed) if nsim > 0 else None
+    batches = vlib.load_case_files(os.path.join(wd, "enum"))
     n_enum = len(batches)
     sim_batches = vlib.load_case_files(os.path.join(wd, "sim")) if nsim > 0 else []
     for b in sim_batches:
         b["sampled"] = True
     batches += sim_batches
-    sizes = sizes_of(results[0]) or {}
-    states = sum(r.distinct - 1 for r in results)          # minus the initial state of every shard
+    sizes = sizes_of(res) or {}
+    states = res.distinct - NCHAIN          # minus the initial state of every chain
     if sizes and states != sizes.get("batches"):
         raise vlib.ToolError("enumeration incomplete: %d files for %s batches" % (states, sizes.get("batches")))
     if n_enum != states:
         raise vlib.ToolError("enumeration wrote %d files for %d states" % (n_enum, states))
-    info = {"sizes": sizes, "tlc_states": states, "tlc_wall_s": round(max(r.wall for r in results), 1),
+    info = {"sizes": sizes, "tlc_states": states, "tlc_wall_s": round(res.wall + (simres.wall if simres else 0), 1),
             "enum_files": n_enum, "sim_files": len(sim_batches),
             "sim_states": simres.generated if simres else 0}
     return batches, info
@@ -87,14 +78,23 @@ def line_of(text, off):
 
 
 def parse_check_text(text):
-    """formatted diagnostics -> [(message, line, [missing pattern texts])]"""
+    """formatted diagnostics -> [(message, line of the match, [missing pattern texts], [underlined lines])]
+    (codespan layout: `error: <msg>`, `┌─ file:line:col`, numbered source lines `NN │ ...`, an underline
+    `   │ │     -----` below a labelled line, notes `= ...`)"""
     res = []
     for blk in re.split(r"(?m)^error: ", text or "")[1:]:
         msg = blk.split("\n", 1)[0].strip()
         m = re.search(r"┌─ ([^:\n]+):(\d+):(\d+)", blk)
         line = int(m.group(2)) if m else 0
         wits = re.findall(r"(?m)^\s*= \t`(.*)`\s*$", blk)
-        res.append((msg, line, wits))
+        marked, cur = [], None
+        for ln in blk.split("\n"):
+            mm = re.match(r"^\s*(\d+) │", ln)
+            if mm:
+                cur = int(mm.group(1))
+            elif re.match(r"^\s*│[ │]*\s-+\s*$", ln) and cur is not None:
+                marked.append(cur)
+        res.append((msg, line, wits, marked, m.group(1) if m else ""))
     return res
 
 
@@ -136,9 +136,11 @@ def static_observe(batches, wd, name="static"):
                 pending.append((b, part, t, sh))
     wall, n_files, level = 0.0, 0, 0
     while pending:
-        cases = [{"id": "%s_%d_%d" % (b["id"], level, k), "mode": "check", "diags": True, "files": {"main.abra": text}}
+        # the structured diagnostics (a second analysis of the file) are requested for every 10th file only; they must
+        # agree with what is read off the formatted text (see _attribute)
+        cases = [{"id": "%s_%d_%d" % (b["id"], level, k), "mode": "check", "diags": k % 10 == 0, "files": {"main.abra": text}}
                  for k, (b, ms, text, shifted) in enumerate(pending)]
-        obs, w = vlib.run_harness(cases, wd, name="%s_%d" % (name, level), timeout=60)
+        obs, w = vlib.run_harness(cases, wd, name="%s_%d" % (name, level), timeout=60, jobs=JOBS)
         wall += w
         n_files += len(cases)
         nxt = []
@@ -159,7 +161,9 @@ def static_observe(batches, wd, name="static"):
 
 
 def _attribute(matches, text, o):
-    """map the diagnostics of one file to its matches by line; None if the file's verdicts are unusable"""
+    """map the diagnostics of one file to its matches by line; None if the file's verdicts are unusable.
+    Source: the formatted diagnostics (check_text); when the case was run with `diags` the structured
+    diagnostics must tell the same story (ToolError otherwise)."""
     if o.get("check") not in ("ok", "diag"):
         return None
     by_line = {m["line"]: m for m in matches}
@@ -170,29 +174,42 @@ def _attribute(matches, text, o):
     res = {m["g"]: {"nonexh": False, "wits": [], "redundant": set()} for m in matches}
     if o.get("check") == "ok":
         return res
-    diags = o.get("diags")
-    if not isinstance(diags, list):
+    blocks = parse_check_text(o.get("check_text"))
+    if not blocks:
         return None
-    for d in diags:
-        if d.get("msg") not in (MSG_NONEXH, MSG_REDUND) or d.get("file") != "main.abra":
-            return None
-        ln = line_of(text, d["start"])
-        if ln not in by_line:
+    for msg, ln, wits, marked, fname in blocks:
+        if msg not in (MSG_NONEXH, MSG_REDUND) or fname != "main.abra" or ln not in by_line:
             return None
         g = by_line[ln]["g"]
-        if d["msg"] == MSG_NONEXH:
+        if msg == MSG_NONEXH:
             res[g]["nonexh"] = True
+            res[g]["wits"] += wits
         else:
-            for lab in d.get("labels", []):
-                a = arm_of.get(line_of(text, lab["start"]))
+            for x in marked:
+                a = arm_of.get(x)
                 if a is None or a[0] != g:
                     return None
                 res[g]["redundant"].add(a[1])
-    for msg, ln, wits in parse_check_text(o.get("check_text")):
-        if msg == MSG_NONEXH:
-            if ln not in by_line or not res[by_line[ln]["g"]]["nonexh"]:
+            if not marked:
                 return None
-            res[by_line[ln]["g"]]["wits"] += wits
+    diags = o.get("diags")
+    if isinstance(diags, list):
+        res2 = {m["g"]: {"nonexh": False, "redundant": set()} for m in matches}
+        for d in diags:
+            ln = line_of(text, d["start"])
+            if d.get("msg") not in (MSG_NONEXH, MSG_REDUND) or ln not in by_line:
+                raise vlib.ToolError("structured and formatted diagnostics disagree: %r" % d)
+            g = by_line[ln]["g"]
+            if d["msg"] == MSG_NONEXH:
+                res2[g]["nonexh"] = True
+            for lab in d.get("labels", []):
+                a = arm_of.get(line_of(text, lab["start"]))
+                if a is None or a[0] != g:
+                    raise vlib.ToolError("structured diagnostic label outside its match: %r" % d)
+                res2[g]["redundant"].add(a[1])
+        for g in res:
+            if res[g]["nonexh"] != res2[g]["nonexh"] or res[g]["redundant"] != res2[g]["redundant"]:
+                raise vlib.ToolError("structured and formatted diagnostics disagree on match %s: %r vs %r" % (g, res[g], res2[g]))
     return res
 
 
@@ -290,7 +307,7 @@ def validate_witnesses(prop, tier, records, wd):
         os.remove(outf)
     res = vlib.tlc(os.path.join(vlib.SPEC, "props", "C12W.tla"), timeout=1200, xmx="3g",
                    env={**jvm_env(tier), "TIER": tier, "OBS": obsf, "OUT": outf, "MODE": "enum", "SHARD": "0", "NSHARD": "1", "CALLS": "0",
-                        "OUTDIR": wd})
+                        "NCHAIN": "1", "OUTDIR": wd})
     vlib.tlc_ok(res, "C12W")
     verdicts = vlib.load_ndjson(outf)
     if len(verdicts) != len(records):
@@ -320,7 +337,7 @@ def run_matches(batches, select, wd, name="run"):
             cases.append({"id": "%s_r%d_%d" % (b["id"], level, k), "diags": True,
                           "files": {"main.abra": text + "\n".join(stmts) + "\n"}})
             metas.append(shifted)
-        obs, w = vlib.run_harness(cases, wd, name="%s_%d" % (name, level), timeout=60)
+        obs, w = vlib.run_harness(cases, wd, name="%s_%d" % (name, level), timeout=60, jobs=JOBS)
         wall += w
         n_files += len(cases)
         nxt = []
@@ -375,7 +392,7 @@ def _run_single(b, m, wd, name):
     cases = [{"id": "%s_%s_chk" % (b["id"], m["g"]), "mode": "check", "files": {"main.abra": text}}]
     cases += [{"id": "%s_%s_%d" % (b["id"], m["g"], j), "files": {"main.abra": text + c["stmt"] + "\n"}}
               for j, c in enumerate(m["calls"])]
-    obs, _ = vlib.run_harness(cases, wd, name=name + "_single", timeout=60)
+    obs, _ = vlib.run_harness(cases, wd, name=name + "_single", timeout=60, jobs=JOBS)
     if obs[0].get("check") != "ok":
         return [(b, m, c, None, "notaccepted:" + str(obs[0].get("check"))) for c in m["calls"]]
     rows = []
@@ -448,8 +465,22 @@ class Limiter:
         return fam
 
 
+def gen_destruct(tier, wd):
+    """let / for destructuring programs with expected output (spec/props/C14D.tla; states = files)"""
+    outdir = os.path.join(wd, "destruct")
+    os.makedirs(outdir, exist_ok=True)
+    res = vlib.tlc(os.path.join(vlib.SPEC, "props", "C14D.tla"), timeout=600, xmx="3g", workers=1,
+                   env={**jvm_env(tier), "TIER": tier, "MODE": "enum", "SHARD": "0", "NSHARD": "1", "NCHAIN": "1", "CALLS": "0",
+                        "OUTDIR": outdir})
+    vlib.tlc_ok(res, "C14D")
+    cases = vlib.load_case_files(outdir)
+    if res.distinct - 1 != len(cases):
+        raise vlib.ToolError("C14D wrote %d files for %d states" % (len(cases), res.distinct - 1))
+    return cases, res
+
+
 def clean_big_dirs(wd):
     """the generated case files are large; keep only what a replay needs (replay_*.json hold their own case)"""
     for d in os.listdir(wd):
-        if d.startswith("enum_") or d == "sim":
+        if d in ("enum", "sim"):
             shutil.rmtree(os.path.join(wd, d), ignore_errors=True)
